@@ -102,7 +102,11 @@ Theorem C17_only_identified_reported : forall tm dl m port hosts work a i,
   In (a, i) (run_reported tm dl m port hosts work) ->
   In a (concat work) /\ skip m port a = false /\
   exists c t rid,
-    (hosts a = Answer c (Some (t, rid)) \/ hosts a = AnswerNoClose c (Some (t, rid))) /\
+    (hosts a = Answer c (Some (t, rid)) \/ hosts a = AnswerNoClose c (Some (t, rid)) \/
+     (* a scripted host: it sent this Identification in a positive answer to GET_READER_CONFIG; the
+        capabilities used are the ones it sent, or none *)
+     exists s, hosts a = Script s /\ s_ident s = Some (t, rid) /\ (exists d, s_config s = Ans d true) /\
+               (c = s_capsv s \/ c = None)) /\
     probe_info c (Some (t, rid)) = Some i.
 Proof. exact only_identified_reported. Qed.
 Print Assumptions C17_only_identified_reported.
@@ -116,18 +120,47 @@ Theorem C17_no_dial_after_deadline : forall tm dl m port hosts work t,
 Proof. exact no_dial_after_deadline. Qed.
 Print Assumptions C17_no_dial_after_deadline.
 
-(* FULL STATEMENT WANTED (not provable, and false of the code as it is — see C17_run_time_refuted):
-     forall hosts work, run_time (go_timers t s) dl m hosts work <= dl + allowance
-   PARTIAL: over abstract timers only (wall-clock time is not expressible; the harness measures),
-   and under the hypothesis that every blocking step of a probe is bounded by a timer, i.e. the
-   connection has a read deadline. Then a run that starts at 0 with context deadline dl ends by
-   dl + (dial + max(send_timeout, read_deadline)). Not covered: time spent by the SDK calls of the
-   result collector, scheduling. *)
+(* BOUNDED TIME, all host behaviours. A host is ANY script (Discover/Run.v, [script]): refused / unanswered /
+   accepted dial; for the first message and for each request of the exchange an answer after any delay,
+   positive or not, or none at all; the TCP connection closed at any moment or never; and unsolicited traffic
+   (KeepAlives, events, reports) at any listed times and/or periodically for ever — in particular more often
+   than the read deadline, so that the deadline never fires. The named behaviours (Silent, StallExchange, ...)
+   are the silent special cases.
+   If the probe connection has a read deadline r (llrp.WithTimeout) and the request goroutine closes the client
+   itself after a Shutdown that failed (force_close), then a run that starts at 0 with context deadline dl ends by
+   dl + allowance = dl + dial + send_timeout + 4 r, for every assignment of scripts to addresses and every
+   distribution of addresses over workers.
+   PARTIAL in one respect only: abstract timers (wall-clock time is not expressible; the harness measures it
+   against the same allowance + slack). Not covered: time spent by the SDK calls of the result collector. *)
 Theorem C17_run_time_bounded_partial : forall tm r dl m port hosts work,
-  read_deadline tm = Some r ->
+  read_deadline tm = Some r -> force_close tm = true ->
   exists t, run_time tm dl m port hosts work = Some t /\ t <= dl + allowance tm.
 Proof. exact run_time_bounded. Qed.
 Print Assumptions C17_run_time_bounded_partial.
+
+(* the clause for ONE probe, over all scripts *)
+Theorem C17_probe_bounded_all_scripts : forall tm r s,
+  read_deadline tm = Some r -> force_close tm = true ->
+  exists d, probe_time tm (Script s) = Some d /\ d <= allowance tm.
+Proof. exact script_time_bounded. Qed.
+Print Assumptions C17_probe_bounded_all_scripts.
+
+(* ... and it needs the forced Close: with a read deadline but WITHOUT closing the client after a failed
+   Shutdown, a host that answers the whole exchange, refuses CLOSE_CONNECTION and keeps sending KeepAlives
+   with any period 0 < p <= r blocks the probe for ever (the deadline is re-armed by every KeepAlive and nobody
+   closes the client), and one such host makes a run never return. Replayed on the Go code by the chatty
+   host scripts of checks/c17.py. *)
+Theorem C17_chatty_refuser_blocks_without_forced_close : forall tm r p,
+  read_deadline tm = Some r -> force_close tm = false -> 0 < send_timeout tm -> 0 < p -> p <= r ->
+  probe_time tm (Script (chatty_refuser p)) = None.
+Proof. exact chatty_refuser_blocks. Qed.
+Print Assumptions C17_chatty_refuser_blocks_without_forced_close.
+
+Theorem C17_run_time_refuted_no_forced_close : forall tm r dl,
+  read_deadline tm = Some r -> force_close tm = false -> 0 < r -> 0 < send_timeout tm -> 0 < dl ->
+  exists m port hosts work, run_time tm dl m port hosts work = None.
+Proof. exact run_time_refuted_no_forced_close. Qed.
+Print Assumptions C17_run_time_refuted_no_forced_close.
 
 (* the same for any per-probe bound A, whatever the timers are *)
 Theorem C17_run_time_bounded_by_probe_bound_partial : forall tm dl m port hosts work A,
@@ -136,7 +169,7 @@ Theorem C17_run_time_bounded_by_probe_bound_partial : forall tm dl m port hosts 
 Proof. exact run_time_bounded_gen. Qed.
 Print Assumptions C17_run_time_bounded_by_probe_bound_partial.
 
-(* the code as it is sets no read deadline (go_timers): one host that accepts and stays silent
+(* the code before e383910 set no read deadline (go_timers): one host that accepts and stays silent
    — from the start, in the middle of the exchange, or after answering everything without
    closing — makes the run never return, whatever the probe timeout t, sendTimeout s and the
    run's deadline dl > 0 are. Replayed on the Go code by checks/c17.py (probe/run scenarios). *)
@@ -162,9 +195,32 @@ Example C17_example_run :
                mk_device (str "noaddr") None Up] in
   let hosts := fun a => if a =? 1 then Refuse else if a =? 4 then Garbage
                         else Answer (Some (25882, 2001002, str "5.14")) (Some (0, [0; 0; a; a; a])) in
-  let tm := mk_timers 2 (Some 2) 20 in
+  let tm := mk_timers 2 (Some 2) 20 true in
   run_probed tm 300 (make_device_map devs) 5084 hosts [[1; 2]; [3; 4; 5]] = [1; 5; 4; 3] /\
   map fst (run_reported tm 300 (make_device_map devs) 5084 hosts [[1; 2]; [3; 4; 5]]) = [5; 3] /\
   run_time tm 300 (make_device_map devs) 5084 hosts [[1; 2]; [3; 4; 5]] = Some 0 /\
   run_time (go_timers 2 20) 300 (make_device_map devs) 5084 (fun _ => Silent) [[1; 2]; [3; 4]] = None.
 Proof. vm_compute. repeat split; reflexivity. Qed.
+
+(* the hypotheses of the bounded-time theorems are satisfiable (the timers of the code as it is: probe timeout
+   300 ms = read deadline, sendTimeout 20 s, forced Close), and what the model says about chatty hosts:
+   a host that never answers GET_READER_CONFIG but sends a KeepAlive every 100 ms is given up after sendTimeout
+   (+ the next KeepAlive); a chatty host that refuses CLOSE_CONNECTION costs nothing, and is reported (it did
+   identify itself); a host that chats for a while and then falls silent is cut off by the read deadline; the
+   same refuser WITHOUT the forced Close blocks for ever when it is chatty and is cut off by the read deadline
+   when it is silent *)
+Example C17_example_chatty :
+  let tm := go_timers_deadline 300 20000 in
+  let ok := Ans 0 true in
+  let host cfg cls chat per := mk_script (DialAccept 0) ok ok None cfg (Some (0, [0; 22; 37])) ok None cls false false None chat per in
+  read_deadline tm = Some 300 /\ force_close tm = true /\ allowance tm = 21500 /\
+  probe_time tm (Script (host NoAns ok [] (Some 100))) = Some 20100 /\
+  probe_result tm (Script (host NoAns ok [] (Some 100))) = None /\
+  probe_time tm (Script (host ok (Ans 0 false) [] (Some 100))) = Some 100 /\
+  (exists i, probe_result tm (Script (host ok (Ans 0 false) [] (Some 100))) = Some i) /\
+  probe_time tm (Script (host NoAns ok [100; 200; 400; 650; 900] None)) = Some 1200 /\
+  run_time tm 1000 (fun _ => None) 5084 (fun _ => Script (host ok NoAns [] (Some 100))) [[1; 2]; [3]] = Some 20100 /\
+  probe_time (mk_timers 300 (Some 300) 20000 false) (Script (host ok (Ans 0 false) [] (Some 100))) = None /\
+  probe_time (mk_timers 300 (Some 300) 20000 false) (Script (host ok (Ans 0 false) [] None)) = Some 300 /\
+  probe_time (mk_timers 300 (Some 300) 20000 false) (Script (host ok NoAns [] None)) = Some 300.
+Proof. vm_compute. repeat split; try reflexivity. eexists; reflexivity. Qed.
